@@ -3,6 +3,7 @@
 package c12
 
 import (
+	"context"
 	"fmt"
 	"os"
 	"os/exec"
@@ -210,10 +211,24 @@ func racePass(tier string, p *fw.Parent) {
 	if tier == "thorough" {
 		rounds = "4000"
 	}
-	cmd := exec.Command(bin, "-rounds", rounds)
+	// the pass runs on real goroutines with the real sync package: if the tree under test can deadlock, it may
+	// never return. It is auxiliary, so a pass that does not finish is killed and recorded, not judged — the
+	// scheduler-driven exploration below detects deadlocks itself, deterministically.
+	limit := 5 * time.Minute
+	if tier == "thorough" {
+		limit = 40 * time.Minute
+	}
+	ctx, cancel := context.WithTimeout(context.Background(), limit)
+	defer cancel()
+	cmd := exec.CommandContext(ctx, bin, "-rounds", rounds)
 	cmd.Env = append(os.Environ(), "GORACE=halt_on_error=0 log_path="+filepath.Join(work, "racelog"))
 	out, err := cmd.CombinedOutput()
 	text := string(out)
+	if ctx.Err() != nil {
+		fmt.Printf("C12: free-running -race pass did not finish within %v (killed; auxiliary pass, not judged)\n", limit)
+		p.AddCount("race_pass_killed_after_timeout", 1)
+		err = nil
+	}
 	// race reports go to log_path files
 	logs, _ := filepath.Glob(filepath.Join(work, "racelog.*"))
 	reports := 0
@@ -255,7 +270,7 @@ func init() {
 			if tier == "thorough" {
 				b, b2 = 3, 2
 			}
-			return fmt.Sprintf("the library is rebuilt with its sync import replaced by a cooperative-scheduler shim and with generated Access hooks (before every statement touching a package-level variable, at entry of every pointer-receiver method, classified read/write); 12 three-thread scenarios that collide on every piece of shared state (Register ∥ Codec+decode ×2; RegisterSchema ∥ SchemaForType ∥ NewEncoderFor; Register(T1) ∥ Register(T2) ∥ build with a final both-in-effect check; shared-codec decode ×3 with pooled banks, closing at once or keeping banks open; shared-codec encode ×3 incl. map iteration; ReadFile ×2 + a third thread closing banks handed over through a channel; timestamp decode ×3 with the same / different / X,Y,Y not-yet-cached zone offsets; a mix) are explored over ALL schedules with at most %d preemptions where every Lock/Unlock/RLock/RUnlock/Pool.Get/Pool.Put/channel operation is a scheduling point and every Pool.Get answer a choice, and again with every Access hook as an additional scheduling point with at most %d preemptions; per schedule: vector-clock happens-before check of all hooked accesses (lock release→acquire, pool put→get, channel send→recv edges), deadlock detection, and comparison of every thread's observation with what a sequential order allows; auxiliary: the same bodies free-running on 16 goroutines under Go's race detector; distinct_nontrivial = schedules executed", b, b2)
+			return fmt.Sprintf("the library is rebuilt with its sync import replaced by a cooperative-scheduler shim and with generated Access hooks (before every statement touching a package-level variable, at entry of every pointer-receiver method, classified read/write); 13 scenarios of three threads (one of two) that collide on every piece of shared state (Register ∥ Codec+decode ×2; RegisterSchema ∥ SchemaForType ∥ NewEncoderFor; Register(T1) ∥ Register(T2) ∥ build with a final both-in-effect check; shared-codec decode ×3 with pooled banks, closing at once or keeping banks open; shared-codec encode ×3 incl. map iteration; ReadFile ×2 + a third thread closing banks handed over through a channel; timestamp decode ×3 with the same / different / X,Y,Y not-yet-cached zone offsets; a registered builder that re-enters the codec builder ∥ Register of another type (RWMutex modelled with writer preference: readers queue behind an announced writer); ReadFile abandoned from a callback that closed its bank, then shared-codec decode ×2 (two threads); a mix) are explored over ALL schedules with at most %d preemptions where every Lock/Unlock/RLock/RUnlock/Pool.Get/Pool.Put/channel operation is a scheduling point and every Pool.Get answer a choice, and again with every Access hook as an additional scheduling point with at most %d preemptions; per schedule: vector-clock happens-before check of all hooked accesses (lock release→acquire, pool put→get, channel send→recv edges), deadlock detection, and comparison of every thread's observation with what a sequential order allows; auxiliary: the same bodies free-running on 16 goroutines under Go's race detector; distinct_nontrivial = schedules executed", b, b2)
 		},
 		Assumptions: []string{
 			"sequentially consistent interleavings at the granularity of synchronisation operations (and of instrumented accesses in the second pass); weak-memory effects are outside the model",
